@@ -20,7 +20,7 @@ Qed.
 Lemma RegOk_run cf ops : RegOk (run cf ops).
 Proof.
   induction ops as [|o ops IH] using rev_ind; [apply RegOk_init|].
-  rewrite run_snoc. apply RegOk_step. assumption.
+  rewrite run_snoc. apply RegOk_step; [apply Wf_run | assumption].
 Qed.
 Lemma Own_run cf ops : Own (run cf ops).
 Proof.
@@ -569,4 +569,35 @@ Lemma old_retry_shown_idle :
   let t := candidate_try_old (run cf_w (firstn 5 retry_w)) 1 in
   c_iter (cl t 1) = true /\ c_state (cl t 1) = CIdle /\
   cl_waiting (show_pools cf_w t 1) = 0 /\ cl_idle (show_pools cf_w t 1) = 1.
+Proof. vm_compute. repeat split. Qed.
+
+(* ------------------------------------------------------------------ CancelRequest connections touch nothing *)
+
+Lemma reg_del_notin k l : ~ In k l -> reg_del k l = l.
+Proof.
+  induction l as [|x l IH]; intros H; simpl; [reflexivity|].
+  destruct (Nat.eqb_spec x k) as [->|Hne]; simpl.
+  - exfalso. apply H. left. reflexivity.
+  - rewrite IH; [reflexivity|]. intros Hi. apply H. right. assumption.
+Qed.
+
+Lemma cancel_inert cf ops pid :
+  let t := run cf ops in let t' := step cf t (CancelConn pid) in
+  creg t' = creg t /\ sreg t' = sreg t /\ cids t' = cids t /\ sids t' = sids t /\
+  (forall c, cl t' c = cl t c) /\ (forall s, sv t' s = sv t s) /\ (forall a, at_ t' a = at_ t a) /\
+  (forall p, show_pools cf t' p = show_pools cf t p) /\ show_lists t' = show_lists t.
+Proof.
+  intros t t'.
+  assert (E : creg t' = creg t).
+  { unfold t', step. simpl. apply reg_del_notin. intros H.
+    apply (NP_run cf ops) in H. fold t in H. pose proof (w_zero _ (Wf_run cf ops)) as Z. fold t in Z. congruence. }
+  repeat split; try assumption; try reflexivity.
+  - intros p. unfold show_pools, cl_count, sv_count. rewrite E. reflexivity.
+  - unfold show_lists. rewrite E. reflexivity.
+Qed.
+
+(** The seeded defect: a pseudo-client carrying the id it was asked to cancel unregisters a connected client. *)
+Lemma cancel_bad_removes_target :
+  let t := cancel_conn_bad (run cf_w [Login 1 1 true; HandleStart 1]) 1 in
+  creg t = [] /\ c_phase (cl t 1) = PHandle /\ cl_idle (show_pools cf_w t 1) = 0 /\ length (clients_of t 1) = 1.
 Proof. vm_compute. repeat split. Qed.
